@@ -32,7 +32,10 @@ MANIFEST = dict(
          "witnesses replayed on the binary. The quoting table, buffer capacities, rounding mode, the symbol-protection rule (three flags "
          "read from symbol_needs_quotes / pool create, so the pinned and the repaired source both verify) and the text of every mirrored "
          "function are re-extracted from the source on every run; the model is run against the rebuilt binary on seeded quantities x "
-         "styles x precisions plus boundary streams; an independent Fraction oracle on ledger's own output supplies the failing input.",
+         "styles x precisions plus boundary streams; an independent Fraction oracle on ledger's own output supplies the failing input. The default "
+         "register/balance path is covered too: value_t::print and amount_t::is_zero are modelled (a bare 0 is shown, and a row hidden, "
+         "exactly when the amount rounds to zero at its display precision - proved), pinned, compared (amt.show) and checked on "
+         "`reg`/`bal` default output for amounts that round up across a power of ten.",
     note="Modelled, not verified: MPFR %.*RNf rounds the exact rational to a nearest decimal (tie direction unspecified: the comparison "
          "accepts either neighbour exactly at ties and demands equality elsewhere); GMP is exact. Outside the model: lot annotations, "
          "the time-colon style of h/m/s, in_place_reduce, --time-colon. Text is modelled as bytes. Known finding: a commodity that "
@@ -400,6 +403,15 @@ def observe_fmt(work, c):
         res["verif"] = parse_verif(lines[1])
     if rc2 == 0:
         res["flags"] = xml_flags(xml).get(bytes.fromhex(c["sym"]))
+    if c.get("listing", True) and rc == 0:
+        # the default listing path: value_t::print (a bare 0 for an amount that is_zero) behind justify(),
+        # and the display filter that hides rows whose amount is_zero (no --empty here)
+        amt = [] if c["expr"] == "amount" else ["--amount", c["expr"]]
+        r1 = run_ledger(["-f", p] + opt + ["reg", "^A$", "--format", "%%(justify(scrub(%s), 1))\n" % c["expr"]])
+        r2 = run_ledger(["-f", p] + opt + amt + ["reg", "^A$"])
+        r3 = run_ledger(["-f", p] + opt + amt + ["bal", "^A$"])
+        res["listing"] = dict(shown=r1[1] if r1[0] == 0 else None, reg=r2[1] if r2[0] == 0 else None,
+                              bal=r3[1] if r3[0] == 0 else None, err=(r1[2] + r2[2] + r3[2])[-300:])
     return res
 
 
@@ -413,6 +425,76 @@ def reread(work, c, text, known):
     rc, out, err = run_ledger(["-f", p] + opt + ["reg", "^A$", "--empty", "--format", "%(verif_rational(amount))\n"])
     v = parse_verif(out.split(b"\n")[0]) if rc == 0 else None
     return dict(journal=j, rc=rc, err=err, verif=v)
+
+
+def listing_text(text, sym, st):
+    """Report columns drop the quotes of a separated commodity's symbol unless it contains a space or is
+    all digits (the register is for reading, not for re-reading); everything else is as `%(amount)`."""
+    if not (sym and st.sep):
+        return text
+    qs = next((f for f in printed_forms(sym) if (text.endswith(f) if st.suf else text.startswith(f))), None)
+    if qs is None or not qs.startswith(b'"') or b" " in qs or re.fullmatch(rb"[0-9]*", qs[1:-1]):
+        return text
+    return text[:len(text) - len(qs)] + qs[1:-1] if st.suf else qs[1:-1] + text[len(qs):]
+
+
+def check_listing(ctx, c, o, val, shows, replay):
+    """The default register / balance path.  Model: amt.show (value_t::print + amount_t::is_zero).
+    Oracle: an amount whose correctly rounded display value is not zero keeps its row in `reg` and `bal`
+    and is shown there exactly as `%(amount)` shows it - never a bare 0, never dropped."""
+    li = o.get("listing")
+    if li is None:
+        return
+    ctx.count()
+    ctx.feature("listing")
+    if li["shown"] is None or li["reg"] is None or li["bal"] is None:
+        ctx.tie_broken("corr:amt.show", "ledger failed on the default listing of %r: %s" % (o["journal"], li["err"]))
+        return
+    shown = li["shown"].strip()
+    model = set()
+    for f in shows:
+        if f[0] == "ok":
+            if f[2] == "1":
+                # is_zero: `reg` hides the row when the posting's own amount is the one displayed; a computed
+                # column (amount*K) of a visible row is shown as a bare 0
+                model.update([b"", b"0"])
+            else:
+                model.add(bytes.fromhex(f[1]))
+    if shown not in model:
+        ctx.tie_broken("corr:amt.show", "default listing shows %r, model %r (exact %s, %%(amount) gives %r)\n%r" %
+                       (shown, sorted(model), o["verif"][0], o["text"], o["journal"]))
+        ctx.mism.append(dict(op="amt.show", model=[m.decode("utf-8", "replace") for m in model],
+                             ledger=shown.decode("utf-8", "replace"), case=c))
+    else:
+        ctx.traces_validated += 1
+    if val is None or val == 0:
+        if val == 0:
+            ctx.feature("listing:displays-as-zero")
+        return
+    rp = dict(replay)
+    rp.update(kind="listing", shown=shown.decode("utf-8", "replace"), reg=li["reg"].decode("utf-8", "replace"),
+              bal=li["bal"].decode("utf-8", "replace"))
+    what = None
+    want = listing_text(o["text"], bytes.fromhex(c["sym"]), Style.of_bits(c["style"]))
+    if want != o["text"]:
+        ctx.feature("listing:quotes-elided")
+    if shown == b"":
+        what = ("row-dropped", "the register hides the posting although its amount displays as %r (exact %s)" % (o["text"], o["verif"][0]))
+    elif shown != want:
+        what = ("differs", "justify() / the default listing shows %r where %%(amount) shows %r (exact %s)" %
+                (shown, o["text"], o["verif"][0]))
+    elif want not in li["reg"]:
+        what = ("row-dropped", "`ledger reg` does not show %r (exact %s): %r" % (want, o["verif"][0], li["reg"]))
+    elif want not in li["bal"]:
+        what = ("row-dropped", "`ledger bal` does not show %r (exact %s): %r" % (want, o["verif"][0], li["bal"]))
+    if what:
+        ctx.violation("C04:listing:" + what[0], what[1], rp)
+    if abs(o["verif"][0]) < abs(val):
+        ctx.feature("listing:rounds-up-in-magnitude")
+        lead = str(abs(val)).split("/")[0]
+        if abs(val).denominator == 1 and set(str(abs(val).numerator)[1:]) <= {"0"} and str(abs(val).numerator)[0] == "1":
+            ctx.feature("listing:carries-into-new-digit")
+            ctx.nontrivial(("listing-carry", c["sym"], c["style"], c["P"], c["q"], c["channel"]))
 
 
 def classify_reread_failure(c, text, d):
@@ -504,6 +586,9 @@ def process_fmt_cases(ctx, work, cases, tag):
         for qq in qs:
             plines.append("amt.print\t%d\t%s\t%s\t%d\t%d/%d\t%d\t%d" %
                           (c["dcg"], c["sym"], mstyle, mprec, qq.numerator, qq.denominator, vprec, keep))
+        for qq in qs:
+            plines.append("amt.show\t%d\t%s\t%s\t%d\t%d/%d\t%d\t%d" %
+                          (c["dcg"], c["sym"], mstyle, mprec, qq.numerator, qq.denominator, vprec, keep))
         meta.append((len(qs), tie, val, d, bad, replay))
         # non-triviality
         changed = val is not None and val != vq
@@ -524,8 +609,10 @@ def process_fmt_cases(ctx, work, cases, tag):
             continue
         n, tie, val, d, bad, replay = m
         got = printed[pos:pos + n]
-        pos += n
+        shows = [g.split("\t") for g in printed[pos + n:pos + 2 * n]]
+        pos += 2 * n
         texts = [bytes.fromhex(g[3:]) if g.startswith("ok\t") else None for g in got]
+        check_listing(ctx, c, o, val, shows, replay)
         if o["text"] not in texts:
             ctx.tie_broken("corr:amt.print", "model prints %r, ledger prints %r (q=%s style=%s P=%s, tie=%s)\n%r" %
                            (texts, o["text"], o["verif"][0], c["style"], c["P"], tie, o["journal"]))
@@ -627,6 +714,8 @@ def process_parse_cases(ctx, work, texts, dcg=False):
         rc2, xml, err2 = run_ledger(["-f", p] + opt + ["xml"]) if rc == 0 else (1, b"", b"")
         return rc, out, err, xml
     vflib.log("C04: %d parse texts at %.0fs" % (len(texts), __import__("time").time() - ctx.t0))
+    # textual.cc trims trailing white space off every line before the posting is parsed
+    texts = [t.rstrip(b" \t") for t in texts]
     usable = [t for t in texts if t.strip() and t.lstrip()[:1] not in (b";", b"=", b"(") and b"\n" not in t]
     obs = vflib.pmap(one, usable)
     model = vflib.driver_run(["amt.parse\t%s\t%d" % (t.hex(), dcg) for t in usable])
@@ -915,7 +1004,7 @@ def boundary_cases(rng, full):
                 for sign in (1, -1):
                     out.append(make_fmt_case(rng, sym, st, P, dcg, "format", "amount", sign * Fraction(10 ** idig - 1), 0, True))
                     out.append(make_fmt_case(rng, sym, st, P, dcg, "learn", "amount", sign * Fraction(10 ** (idig - 1)), 0, idig % 2 == 0))
-            for idig in (1, 3, 6, 9):
+            for idig in (0, 1, 2, 3, 6, 9):
                 top = 10 ** idig - 1
                 for sign in (1, -1):
                     half = Fraction(5, 10 ** (P + 1))
@@ -924,6 +1013,17 @@ def boundary_cases(rng, full):
                         out.append(make_fmt_case(rng, sym, st, P, dcg, "learn", "mul", q, P + 3, False))
                         q = sign * (Fraction(top) + half + delta - 1 + Fraction(2, 10 ** P) if False else Fraction(top) - 1 + half + delta)
                         out.append(make_fmt_case(rng, sym, st, P, dcg, "format", "amount", q, P + 3, True))
+            # below a power of ten, rounding up across it (0.9.. -> 1, 9.9.. -> 10, 99.9.. -> 100): is_zero's "prints as
+            # zero" test and the integer-digit count both sit on this edge; and the value just too small to carry
+            for j in (0, 1, 2, 3):
+                for sign in (1, -1):
+                    for k in (P + 1, P + 2, P + 4):
+                        out.append(make_fmt_case(rng, sym, st, P, dcg, "format", "amount",
+                                                 sign * (10 ** j - Fraction(1, 10 ** k)), k, True))
+                    out.append(make_fmt_case(rng, sym, st, P, dcg, "learn", "mul",
+                                             sign * (10 ** j - Fraction(4, 10 ** (P + 1))), P + 1, False))
+                    out.append(make_fmt_case(rng, sym, st, P, dcg, "format", "amount",
+                                             sign * (10 ** j - Fraction(6, 10 ** (P + 1))), P + 1, False))
             # negative values that display as zero, smallest displayed unit
             for q, k in ((Fraction(-4, 10 ** (P + 1)), P + 1), (Fraction(4, 10 ** (P + 1)), P + 1), (Fraction(-1, 10 ** P), P),
                          (Fraction(-6, 10 ** (P + 1)), P + 1)):
@@ -1026,7 +1126,7 @@ def replay(obj):
     vflib.ensure_ledger()
     work = Work()
     try:
-        if r.get("kind") in ("fmt", "reread"):
+        if r.get("kind") in ("fmt", "reread", "listing"):
             c = r["case"]
             o = observe_fmt(work, c)
             print("journal:\n" + o["journal"].decode("utf-8", "replace"))
@@ -1042,6 +1142,14 @@ def replay(obj):
             for k, msg in bad:
                 print("VIOLATED:", k, msg)
             rc = 1 if bad else 0
+            li = o.get("listing")
+            if li and val is not None and val != 0:
+                shown = (li["shown"] or b"").strip()
+                want = listing_text(o["text"], sym, st)
+                print("default listing shows:", shown, "| reg:", li["reg"], "| bal:", li["bal"])
+                if shown != want or want not in (li["reg"] or b"") or want not in (li["bal"] or b""):
+                    print("VIOLATED: listing does not show", want)
+                    rc = 1
             if val is not None:
                 for known in (False, True):
                     rr = reread(work, c, o["text"], known)
